@@ -645,8 +645,38 @@ pub fn worker_main(seed: u64, stream: u64, from: u64, to: u64, f: CaseFn) -> i32
     0
 }
 
-/// Runs cases 0..n of `stream` in `shards` worker processes of `per_process` cases each.
+/// Runs cases 0..n of `stream` in worker processes of `per_process` cases each.
 pub fn run_cases_subprocess(ctx: &Ctx, stream: u64, n_cases: u64, per_process: u64) -> RunResult {
+    run_cases_subprocess_with_timeout(ctx, stream, n_cases, per_process, None)
+}
+
+/// What the tasks of a process are doing: (tasks blocked in a futex wait, all tasks).
+fn futex_blocked_tasks(pid: u32) -> (usize, usize) {
+    let mut blocked = 0;
+    let mut total = 0;
+    if let Ok(rd) = std::fs::read_dir(format!("/proc/{}/task", pid)) {
+        for e in rd.flatten() {
+            total += 1;
+            let sys = std::fs::read_to_string(e.path().join("syscall")).unwrap_or_default();
+            // 202 = futex, 449 = futex_waitv
+            if sys.starts_with("202 ") || sys.starts_with("449 ") {
+                blocked += 1;
+            }
+        }
+    }
+    (blocked, total)
+}
+
+/// As run_cases_subprocess; a worker that does not finish within `timeout_s` is inspected and
+/// killed: if every one of its tasks is blocked in a futex wait this is reported as a deadlock
+/// (violation), otherwise as a harness error (inconclusive).
+pub fn run_cases_subprocess_with_timeout(
+    ctx: &Ctx,
+    stream: u64,
+    n_cases: u64,
+    per_process: u64,
+    timeout_s: Option<u64>,
+) -> RunResult {
     let exe = std::env::current_exe().expect("current exe");
     let mut ranges: Vec<(u64, u64)> = vec![];
     let mut a = 0;
@@ -669,18 +699,73 @@ pub fn run_cases_subprocess(ctx: &Ctx, stream: u64, n_cases: u64, per_process: u
                     break;
                 }
                 let (from, to) = ranges[k];
-                let output = std::process::Command::new(&exe)
-                    .arg("worker")
+                let mut local = RunResult::new();
+                let mut cmd = std::process::Command::new(&exe);
+                cmd.arg("worker")
                     .arg(&ctx.prop)
                     .arg(stream.to_string())
                     .arg(from.to_string())
                     .arg(to.to_string())
                     .env("VERIF_SEED", ctx.seed.to_string())
                     .env("VERIF_TIER", ctx.tier.name())
-                    .stderr(std::process::Stdio::piped())
-                    .output();
-                let mut local = RunResult::new();
+                    .stdout(std::process::Stdio::piped())
+                    .stderr(std::process::Stdio::piped());
+                let output = match timeout_s {
+                    None => cmd.output(),
+                    Some(limit) => match cmd.spawn() {
+                        Err(e) => Err(e),
+                        Ok(mut child) => {
+                            // drain the pipes in the background so that the child never blocks on them
+                            let mut so = child.stdout.take().unwrap();
+                            let mut se = child.stderr.take().unwrap();
+                            let h1 = std::thread::spawn(move || {
+                                let mut v = Vec::new();
+                                let _ = std::io::Read::read_to_end(&mut so, &mut v);
+                                v
+                            });
+                            let h2 = std::thread::spawn(move || {
+                                let mut v = Vec::new();
+                                let _ = std::io::Read::read_to_end(&mut se, &mut v);
+                                v
+                            });
+                            let t0 = Instant::now();
+                            let status = loop {
+                                match child.try_wait() {
+                                    Ok(Some(st)) => break Ok(st),
+                                    Ok(None) => {
+                                        if t0.elapsed().as_secs() >= limit {
+                                            let (blocked, total) = futex_blocked_tasks(child.id());
+                                            let _ = child.kill();
+                                            let _ = child.wait();
+                                            if total > 0 && blocked == total {
+                                                local.violations.push(Violation::new(
+                                                    format!(
+                                                        "deadlock: worker {}..{} of stream {} completed nothing for {} s and all {} of its tasks are blocked in a futex wait",
+                                                        from, to, stream, limit, total
+                                                    ),
+                                                    json!({"kind": "regen", "stream": stream, "from": from, "to": to, "seed": ctx.seed}),
+                                                ));
+                                            } else {
+                                                local.harness_errors.push(format!(
+                                                    "worker {}..{} of stream {} exceeded {} s ({} of {} tasks in futex wait): watchdog, inconclusive",
+                                                    from, to, stream, limit, blocked, total
+                                                ));
+                                            }
+                                            break Err(std::io::Error::new(std::io::ErrorKind::TimedOut, "watchdog"));
+                                        }
+                                        std::thread::sleep(std::time::Duration::from_millis(50));
+                                    }
+                                    Err(e) => break Err(e),
+                                }
+                            };
+                            let stdout = h1.join().unwrap_or_default();
+                            let stderr = h2.join().unwrap_or_default();
+                            status.map(|status| std::process::Output { status, stdout, stderr })
+                        }
+                    },
+                };
                 match output {
+                    Err(e) if e.kind() == std::io::ErrorKind::TimedOut => {}
                     Err(e) => local.harness_errors.push(format!("cannot spawn worker: {}", e)),
                     Ok(out) => {
                         let text = String::from_utf8_lossy(&out.stdout);
